@@ -135,6 +135,16 @@ PROPS["C01"] = {
     "assumptions": ["indel cost is 1 or 100000 (the two values the constructor can set)", "rate in [0, 1]"],
 }
 
+PROPS["C02"] = {
+    "level": "other",
+    "text": "Proved on the real Aligner.locate: (E1) every admissible error-free occurrence forces a match; (E2) every admissible "
+            "occurrence within tolerance forces a match for the flag sets that cannot skip the adapter start, with indels; (E3) the "
+            "same for all flag sets when indels are disabled — via the completeness invariant cost <= Dist for all allowed starts.  "
+            "Bounded: only the cut-position sentences (leftmost / rightmost copy), on a grid with a brute-force oracle.",
+    "note": "Trusted: as C01, plus rate < 1.  The comparers and adapter-class wrappers are covered by the bounded stand-in.",
+    "assumptions": ["the occurrence is given as ghost parameters (universally quantified)"],
+}
+
 _PENDING = "check not built yet in this revision (see DESIGN.md section 7 for the build order)"
 NOT_APPLICABLE = {
     "C12": "quantifies over fault sequences, crash points and schedules and contains a liveness clause; malformed-input detection "
